@@ -102,6 +102,16 @@ example : (matchString [0x22, 0x61, 0x5C, 0x78, 0x34, 0x31, 0x5C, 0x31, 0x30, 0x
     0x65, 0x39, 0x5C, 0x55, 0x30, 0x30, 0x30, 0x31, 0x46, 0x36, 0x30, 0x30, 0x5C, 0x22, 0x5C, 0x6E, 0x22, 0x2C]).isSome = true := by
   decide
 
+/-- Instances of the escape forms added for JSON compatibility: `"\/"` is `/`;
+a high+low surrogate pair of `\u` escapes is one code point (U+1F600); a lone
+or reversed surrogate is U+FFFD and the escape after it is still decoded. -/
+theorem json_escape_samples :
+    unquoteBytes [0x22, 0x5C, 0x2F, 0x22] = some [0x2F] ∧
+    unquoteBytes [0x22, 0x5C,0x75,0x64,0x38,0x33,0x64, 0x5C,0x75,0x64,0x65,0x30,0x30, 0x22] = some [0xF0, 0x9F, 0x98, 0x80] ∧
+    unquoteBytes [0x22, 0x5C,0x75,0x64,0x38,0x33,0x64, 0x61, 0x22] = some [0xEF, 0xBF, 0xBD, 0x61] ∧
+    unquoteBytes [0x22, 0x5C,0x75,0x64,0x65,0x30,0x30, 0x5C,0x75,0x30,0x30,0x34,0x31, 0x22] = some [0xEF, 0xBF, 0xBD, 0x41] ∧
+    (matchString [0x22, 0x5C, 0x2F, 0x22]).isSome = true := by decide
+
 /-- `unquoteBytes` does panic outside the rule (`"\x1"`): the rule is what
 protects it. -/
 theorem unquote_panics_outside_rule : unquoteBytes [0x22, 0x5C, 0x78, 0x31, 0x22] = none ∧
